@@ -263,6 +263,44 @@ def ob_gt_loop(alias=False):
     return {"queries": nq, "paths": npaths, "functions": [P.demangled[fname][:100]], "sample": "one inductive step, %d paths over (found_one, 4 bits, i == 0)" % npaths}
 
 
+def ob_gt_concrete(alias=False):
+    """whole runs of exponentiate_gt for particular digit vectors (the loop executed for its 64 iterations in the exponent model, no cut): the zero
+    exponent (the base case the inductive step says nothing about when a variant skips the initialisation of the accumulator), single digits, maximal
+    digits |x|-1, and a few seeded ones.  The result object must hold a^(sum c_j |x|^j) afterwards - in particular it must have been written."""
+    import random
+    P = prog()
+    fname = P.find1(B + r"Fq12::exponentiate_gt\(" + B + r"Fq12 const&, " + B + r"PowersOfX const&\)")
+    rng = random.Random(7)
+    vecs = [(0, 0, 0, 0), (1, 0, 0, 0), (0, 1, 0, 0), (0, 0, 1, 0), (0, 0, 0, 1), (X - 1,) * 4, (1 << 63, 0, 0, 1 << 63)] + [tuple(rng.randrange(X) for _ in range(4)) for _ in range(3)]
+    for c in vecs:
+        I = eir.Interp(P)
+        install_gt(I, [])
+        this = Obj("this", 576, "arg", 16)
+        a = this if alias else Obj("a", 576, "arg", 16, True)
+        a.cells[0] = (576, Pow(1))
+        sc = Obj("scalar", 64, "arg", 16, True)
+
+        def h_bit(I_, name, args, site, c=c):
+            if args[0].obj is not sc or not is_conc(args[0].off) or args[0].off % 16 != 0 or not is_conc(args[1]):
+                raise ExecError("unsupported", "bit test outside the digit vector")
+            pos = args[1] if args[1] < (1 << 31) else args[1] - (1 << 32)
+            return int(0 <= pos < 64 and (c[args[0].off // 16] >> pos) & 1)
+        I.add_intercept(CORE + r"BigInt<64>::bit\(int\) const", h_bit, "BigInt<64>::bit")
+        I.call_named(fname, [Ptr(this, 0), Ptr(a, 0), Ptr(sc, 0)])
+        want = sum(cj * X ** j for j, cj in enumerate(c)) % R_ORDER
+        cell = this.cells.get(0)
+        key = "gt-concrete:%s" % ("zero" if not any(c) else "digits")
+        ce = {"digits": [hex(x) for x in c], "alias": alias}
+        if alias and not any(c) and cell is not None and isinstance(cell[1], Pow) and cell[1].e == 1:
+            raise Violation(key, "exponentiate_gt leaves its result object untouched for the zero exponent (it still holds the base)", ce)
+        if cell is None or not isinstance(cell[1], Pow):
+            raise Violation(key, "exponentiate_gt does not write its result for the digits %r (the result object keeps its previous contents)" % (c,), ce)
+        if cell[1].e % R_ORDER != want:
+            raise Violation(key, "exponentiate_gt returns a^%#x for the digits %r, expected a^%#x" % (cell[1].e % R_ORDER, c, want), ce)
+    return {"queries": len(vecs), "paths": len(vecs), "functions": [P.demangled[fname][:100]],
+            "sample": "%d whole runs (zero, unit, maximal and seeded digit vectors): result written and equal to a^(sum c_j |x|^j)" % len(vecs)}
+
+
 def ob_gt_bases(alias=False):
     """the prologue: t[j] = a^(|x|^j) (exponents modulo r), read at the first arrival at the loop header"""
     P = prog()
@@ -346,6 +384,7 @@ def register(chk):
         chk.add("decompose:P64", ob_decompose, "P64")
     chk.add("gt-bases", ob_gt_bases)
     chk.add("gt-loop", ob_gt_loop)
+    chk.add("gt-concrete-runs", ob_gt_concrete)
     chk.add("composition", ob_composition)
     import c10_sampling
     chk.add("powersofx-random", c10_sampling.ob_powersofx_random)
